@@ -200,4 +200,23 @@ PROPS.update({
         assumptions=GRID_ASSUME + ['lexicographic enumeration law for accumulation loops (engine semantics)']),
 })
 
+PROPS.update({
+    'C11': dict(
+        level_text='Deductive proof over the assumed pandas / numpy contracts: add_cell_component dispatches on the source '
+                   'kind (array -> np.copy, list, callable); the new column is a fresh list (independent of the '
+                   "caller's array or list) with element i of a sequence, respectively generator(coordinates of cell i, "
+                   'cells), at cell id i (comprehension map law + position table of C09); every other column and the '
+                   'set of cells are unchanged (whole-view postcondition + frame); remove_cell_component drops exactly '
+                   'that column and rejects unknown names with nothing changed; ConstantGenerator / LookupGenerator '
+                   'return their value / table entry. Lookup tables of a line / 2-D world are open finding F4.',
+        level_note='What is proved here is thin by nature: the column semantics (copy on assignment, element i in row i, '
+                   'drop) are assumed pandas behaviour; user callables and table indexing are uninterpreted pure functions.',
+        functions=['Environments.DiscreteWorld.add_cell_component', 'Environments.DiscreteWorld.remove_cell_component',
+                   'Environments.ConstantGenerator.__call__', 'Environments.LookupGenerator.__call__',
+                   'Environments.LookupGenerator.__call__#line', 'Environments.LookupGenerator.__call__#grid2d',
+                   'Environments.DiscreteWorld.get_cell'],
+        assumptions=GRID_ASSUME + ['user-supplied callables are pure functions of their arguments',
+                                   'numpy.copy returns a fresh array with the same elements']),
+})
+
 NOT_APPLICABLE = {}
